@@ -536,7 +536,7 @@ class CategoricalData:
             segment_events = (events >= start) & (events < end)
             # Bypass the normal CategoricalData initialiser to ensure that each cat_data has the same unique_values
             cat_data = CategoricalData([], [])
-            cat_data.unique_values = self.unique_values
+            cat_data.unique_values = list(self.unique_values)
             cat_data.indices = self.indices[segment_events]
             cat_data.events = events[segment_events] - start
             # Insert initial event if it is not there, and pad events with data segment length
